@@ -39,7 +39,7 @@ TRUSTED_TOTAL_PREFIXES = (
     "std::slice::", "core::slice::", "std::ops::RangeInclusive::new", "std::borrow::", "std::convert::", "std::clone::",
     "uuid::", "ulid::", "serde_json::", "dashmap::", "crossbeam::", "sha2::", "std::time::", "std::mem::", "std::ops::",
     "<", "serde::", "std::boxed::Box::", "std::rc::", "std::char::", "core::char::",
-    "std::array::", "core::array::", "std::iter::", "core::iter::",
+    "std::array::", "core::array::", "std::iter::", "core::iter::", "core::bool::", "std::bool::",
     "std::alloc::", "alloc::", "std::num::", "core::num::", "std::marker::", "std::any::", "tracing", "std::ptr::", "core::ptr::", "std::intrinsics::",
 )
 
